@@ -130,6 +130,15 @@ def gen(rng):
             tn = nm if j == 0 else '%s_%d' % (nm, j)
             G.add_trashed(steps, ht, tn, TG.pct(home + '/old/' + nm), '2019-01-01T00:00:00', 'none', tag='c%d' % j)
             steps.append(['f', ht + '/files/' + tn, 'c%d' % j, 0o644])
+        # past the 100th use of a name the suffix is a random number: the scripted draws begin with taken values, and payloads
+        # WITHOUT info sit at some of the numbers drawn later (leftovers of interrupted puts): each must survive, whatever number
+        # is probed and whatever number is used
+        crowded_script = [rng.choice([1, 2, 3]) for _ in range(6)] + [rng.randrange(200, 60000) for _ in range(40)]
+        for r_ in crowded_script[6:30]:
+            if rng.random() < 0.4:
+                steps.append(rng.choice([['f', ht + '/files/%s_%d' % (nm, r_), 'PRECIOUS orphan payload', 0o644],
+                                         ['f', ht + '/files/%s_%d' % (nm, r_), 'PRECIOUS orphan payload', 0o644],
+                                         ['l', ht + '/files/%s_%d' % (nm, r_), 'nowhere-at-all']]))
     nprocs = 1 if mode == 'seq' else (rng.choice([2, 2, 2, 3]) if TIER == 'quick' else rng.choice([2, 2, 3, 3, 4]))
     procs = []
     for pi in range(nprocs):
@@ -172,7 +181,7 @@ def gen(rng):
             case['sched']['strategy'] = 'sweepfault'
             case['sched']['sweep'] = {'pid': fp, 'j': rng.randrange(0, 5)}
     if mode == 'crowded':
-        case['randscript'] = [rng.choice([1, 2, 3]) for _ in range(6)] + [rng.randrange(200, 60000) for _ in range(40)]
+        case['randscript'] = crowded_script
     case['note'] = {'state': state, 'names': names}
     return case
 
